@@ -116,6 +116,18 @@ type Forest struct {
 }
 
 type StrMap map[string]string
+
+// a named map (typed on the wire: its type string takes a slot of the type table, like a list type
+// string does) in front of list types that occur more than once in the message
+type Shelf struct {
+	Labels StrMap
+	First  []int32
+	Second []int32
+	Names  []string
+	More   []string
+	Tail   StrMap
+	Last   []int32
+}
 type NamedMaps struct {
 	A StrMap
 	B StrMap
@@ -239,7 +251,7 @@ var zooTypes = []reflect.Type{
 	reflect.TypeOf([]int32{}), reflect.TypeOf([]string{}), reflect.TypeOf([]*Inner{}), reflect.TypeOf([]Leaf{}),
 	reflect.TypeOf([]interface{}{}), reflect.TypeOf([]float64{}), reflect.TypeOf([]int64{}), reflect.TypeOf([]time.Time{}),
 	reflect.TypeOf(map[string]string{}), reflect.TypeOf(map[string]int32{}), reflect.TypeOf(map[int32]string{}),
-	reflect.TypeOf(map[string]*Inner{}), reflect.TypeOf(AnyMaps{}), reflect.TypeOf(map[interface{}]interface{}{}), reflect.TypeOf(Edges{}), reflect.TypeOf(Grid{}), reflect.TypeOf(Nested{}), reflect.TypeOf(NamedLists{}), reflect.TypeOf(Tags{}),
+	reflect.TypeOf(map[string]*Inner{}), reflect.TypeOf(AnyMaps{}), reflect.TypeOf(map[interface{}]interface{}{}), reflect.TypeOf(Edges{}), reflect.TypeOf(Grid{}), reflect.TypeOf(Nested{}), reflect.TypeOf(NamedLists{}), reflect.TypeOf(Tags{}), reflect.TypeOf(Shelf{}),
 }
 
 var timeType = reflect.TypeOf(time.Time{})
